@@ -20,11 +20,13 @@ def M(level, claim, note, explanation, trusted=(), assumptions=(), externals=())
 
 META = {
     "C01": M("other",
-             "Proved for all inputs (136 obligations): every setter route that ends in Config._set_value / __setattr__ / _set_default_value / load_tree stores exactly the value the "
+             "Proved for all inputs (149 obligations): every setter route that ends in Config._set_value / __setattr__ / _set_default_value / load_tree stores exactly the value the "
              "field's validate returned, which satisfies accepts(field, .), and changes no other key or object (frame); the per-class meaning of accepts for StringField (all "
              "options), NumberField (IntField/FloatField/PortField: type, min, max with exact int/float comparison), BoolField, BytesField, ChallengeField; typed lists: every item "
-             "stored by append / insert / index assignment / extend / construction satisfies the item field, typed dicts: item assignment and setdefault. NOT proved: the net / file "
-             "/ url validators (external parsers), slice and bulk dict operations; those are decided by the bounded driver (all field classes x all public routes x sequences <= 3).",
+             "stored by append / insert / index assignment / extend / construction satisfies the item field, typed dicts: item assignment and setdefault; the class-specific part of "
+             "the net / file / url validators (IPv4NetworkField prefix bounds on the value that is stored, UrlField scheme, FilenameField existence requirement) over uninterpreted "
+             "parser / file-system predicates. NOT proved: that the canonical text returned by the net validators still satisfies the inherited StringField length / pattern options "
+             "(open known finding), slice and bulk dict operations; those are decided by the bounded driver (all field classes x all public routes x sequences <= 3).",
              "virtual contract of Field.validate (result is None or accepts(field, result)) is what callers rely on; per-class refinement proved for 5 validator classes, bounded for the rest. " + ACYCLIC,
              "deductive part: core setters against the virtual validate contract + per-class refinements; bounded part: run-time invariant walk after every step",
              assumptions=[ACYCLIC, ADOPT, FIELDS1, "custom validators return values that satisfy the field's declared constraints"]),
@@ -55,12 +57,15 @@ META = {
              "json/yaml/bson/pickle/ElementTree/minidom laws are third-party: assumed + sampled; recursive tree equality is outside the encoding",
              "contracts on the real format classes discharged by z3/cvc5 + bounded run-time contract checking of loads(dumps(t)) == t"),
     "C05": M("other",
-             "Proved (75 obligations): Field.validate (required / None / custom validator chain) against its virtual contract; exactness of StringField (normal form = strip then "
+             "Proved (124 obligations): Field.validate (required / None / custom validator chain) against its virtual contract; exactness of StringField (normal form = strip then "
              "case, rejected only if a constraint fails), NumberField (a number of the field's type within the bounds is kept as it is and never rejected, text is parsed, bools and "
-             "non-numbers are refused, result within bounds), BoolField (token sets), BytesField (validation + base64/hex codec inverse), ChallengeField. The remaining classes (net, "
-             "file, url, list, dict), idempotence and codec inverses are decided by the bounded driver: every built-in field class x option grid (all pairs, boundaries, 0/None) x "
+             "non-numbers are refused, result within bounds), BoolField (token sets), BytesField (validation + base64/hex codec inverse), ChallengeField; IPv4AddressField, "
+             "IPv4NetworkField (canonical text stored, prefix bounds incl. 0, rejected only if the parser or a bound refuses), HostnameField (address / resolve / DNS-or-NetBIOS "
+             "shape, each stored form), UrlField (parser accepts and a scheme is present), FilenameField and so IncludeField (resolution against startdir, the four existence "
+             "requirements) - each exact in both directions over uninterpreted predicates for the external parser, resolver and file system. The list / dict classes, "
+             "idempotence and codec inverses are decided by the bounded driver: every built-in field class x option grid (all pairs, boundaries, 0/None) x "
              "values of every Python type, against an independent reference of ok/norm written from the property text (225k cases per quick run).",
-             "regex / ipaddress / urlparse / os.path semantics are external; int()/float() parsing of text is an assumed law (int_ok/int_parse)",
+             "regex / ipaddress / urlparse / socket / os.path semantics are external (uninterpreted predicates: ipaddr_ok/ipnet_ok/url_ok/dns_ok, canonical-text laws assumed); int()/float() parsing of text is an assumed law (int_ok/int_parse)",
              "contracts per validator class discharged by z3/cvc5 + bounded run-time contract checking of validate/to_basic/to_python per field class"),
     "C06": M("proof",
              "For all states and all arguments: every exceptional exit of Config._set_value, __setattr__, load_tree (receiver only), Schema.__call__, __setdefault__ leaves every "
